@@ -93,5 +93,17 @@ v('c10-observer-eth-dst', 'C10', 'fire', B, "    bool forUs = compareEthernetAdd
 v('c10-emitter-realsrc', 'C10', 'fire', B, "                    (const ethernet_address_t *)&our_mac,                            /* realSource: our MAC */\n                    (const ethernet_address_t *)&dst,", "                    (const ethernet_address_t *)&src,                            /* realSource */\n                    (const ethernet_address_t *)&dst,", 'R10.3')
 v('c10-emitter-quick-tos', 'C10', 'fire', B, "                    0, code, tos_discovery);\n\n    log_lltd_frame(\"TX\",", "                    0, code, tos_quick_discovery);\n\n    log_lltd_frame(\"TX\",", 'R10.3')
 
+# ---- C08
+v('c08-ge-first-guard', 'C08', 'fire', B, "    } else if (dataSize > dataOffset + maxPayload) {", "    } else if (dataSize >= dataOffset + maxPayload) {", 'R08')
+v('c08-flag-4000', 'C08', 'fire', B, "        header->length = bytesToWrite | 0x8000;  // Set \"more\" flag", "        header->length = bytesToWrite | 0x4000;  // Set \"more\" flag", 'R08.2')
+v('c08-copy-from-start', 'C08', 'fire', B, "                         (const uint8_t *)data + dataOffset,\n                         bytesToWrite);", "                         (const uint8_t *)data,\n                         bytesToWrite);", 'R08.1')
+v('c08-answer-seq0', 'C08', 'fire', B, "    if (lltd_ntohs(lltdHeader->seqNumber) == 0) {\n        // as per spec, ignore LargeTLV with zeroed sequence Number\n        return;\n    }", "", 'R08.4')
+v('c08-capacity-off-by-one', 'C08', 'fire', B, "        maxPayload = (uint16_t)(mtu - sizeof(lltd_demultiplex_header_t) - sizeof(qry_large_tlv_resp_t));", "        maxPayload = (uint16_t)(mtu - sizeof(lltd_demultiplex_header_t) - sizeof(qry_large_tlv_resp_t) - 1);", 'R08')
+v('c08-benign-final-chunk-ge', 'C08', 'silent', B, "    } else if (dataSize > dataOffset) {\n        // Final chunk", "    } else if (dataSize >= dataOffset) {\n        // Final chunk", None)
+v('c08-offset-no-ntohs', 'C08', 'fire', B, "    uint16_t offset = lltd_ntohs(header->offset);", "    uint16_t offset = header->offset;", 'R08.5')
+v('c08-icon-for-name', 'C08', 'fire', B, "        case tlv_friendlyName:\n            log_crit(\"QueryLargeTLV: Friendly Name request, offset=%d\", offset);\n            if (lltd_port_get_friendly_name(&data, &dataSize) == 0) {\n                should_free = true;\n            }\n            break;", "        case tlv_friendlyName:\n            data = st->small_icon;\n            dataSize = st->small_icon_size;\n            break;", 'R08.5')
+v('c08-stale-seq', 'C08', 'fire', B, "    st->mapper_seq = lltd_ntohs(lltdHeader->seqNumber);\n    set_active_mapper(st, &lltdHeader->realSource, &lltdHeader->frameHeader.source);\n\n    qry_large_tlv_t", "    set_active_mapper(st, &lltdHeader->realSource, &lltdHeader->frameHeader.source);\n\n    qry_large_tlv_t", 'R08.5')
+v('c08-benign-ternary', 'C08', 'silent', B, "    } else if (dataSize > dataOffset) {\n        // Final chunk\n        bytesToWrite = dataSize - dataOffset;\n        header->length = bytesToWrite;\n    } else {\n        // Offset beyond data - empty response\n        header->length = 0;\n    }", "    } else {\n        bytesToWrite = (dataSize > dataOffset) ? (uint16_t)(dataSize - dataOffset) : 0;\n        header->length = bytesToWrite;\n    }")
+
 json.dump(V, open(os.path.join(HERE, 'variants.json'), 'w'), indent=1)
 print(len(V), 'variants')
